@@ -1,7 +1,7 @@
 (* C04 — HTTP/1 connections always progress: no lost wake-ups, all bytes flushed.
    Only statements here; proofs live in H1/FlushProofs.v, H1/ReadBufProofs.v, H1/PollProofs.v. *)
 From AV Require Import Lib.Base Gen.Consts H1.ReadBuf H1.ReadBufProofs H1.Flush H1.FlushProofs
-     H1.Gates H1.GatesCfg H1.GatesProofs H1.PollProofs H1.PollProofs2 Gen.DispatcherGuards H1.GuardsTie.
+     H1.Gates H1.GatesCfg H1.GatesProofs H1.PollProofs H1.PollProofs2 Gen.DispatcherGuards H1.GuardsTie H1.EofProofs.
 
 (* Over ANY history of "append response bytes to write_buf" and "poll_flush against a socket that
    answers each poll_write with Accept k (partial write) | Pending | Ok(0) | Err and the final
@@ -192,7 +192,9 @@ Proof. vm_compute. repeat split. Qed.
    the bookkeeping of the three arms of poll_flush (`written += n`, `advance(written)` + Pending,
    WriteZero) and its exit, the atoms under which the stored error is surfaced, and the
    F21/F28 self-wake condition.  Editing one of those source lines regenerates the records and
-   breaks this theorem. *)
+   breaks this theorem.  Last two conjuncts: the end-of-stream block of Dispatcher::poll (right after the
+   top-level poll_request) is entered exactly when read_available reported end-of-stream -- its guard
+   mentions neither read_buf, the payload nor the queue -- and sets READ_DISCONNECT. *)
 Theorem C04_guards_match_source :
   (forall st, cap_lookup DG_CAP_MATCH (dg_of_status st) = Some (if cap_self_wake st then DgSelfWake else DgWait)) /\
   (forall a b, op_b DG_FLUSH_LOOP_OP a b = (a <? b)) /\
@@ -222,12 +224,48 @@ Theorem C04_guards_match_source :
      let was_closed := conn_b DG_WAS_CLOSED_CONN (op_b DG_WAS_CLOSED_OP qtop (c_maxp c)) (neg_b DG_WAS_CLOSED_NEG crtop) in
      let is_open := conn_b DG_OPEN_CONN (op_b DG_OPEN_OP qend (c_maxp c)) (neg_b DG_OPEN_NEG crend) in
      atoms_b false false was_closed is_open rbn DG_SELF_WAKE =
-     ((c_maxp c <=? qtop) || negb crtop) && ((qend <? c_maxp c) && crend) && rbn).
+     ((c_maxp c <=? qtop) || negb crtop) && ((qend <? c_maxp c) && crend) && rbn) /\
+  (forall sd rb_empty no_payload queue_empty, disc_guard_b sd rb_empty no_payload queue_empty = sd) /\
+  (has_disc_stmt DgSetReadDisconnect = true /\ has_disc_stmt DgPayloadIncomplete = true /\
+   has_disc_stmt DgPayloadFeedEof = true).
 Proof.
   split; [exact tie_cap_match|]. split; [exact tie_flush_loop_op|]. split; [exact tie_flush_pending|].
   split; [exact tie_flush_ready_n|]. split; [exact tie_flush_ready0_done|]. split; [exact tie_error_guard|].
-  split; [exact tie_error_guard_poll|exact tie_self_wake].
+  split; [exact tie_error_guard_poll|]. split; [exact tie_self_wake|].
+  split; [exact tie_disconnect_guard|exact tie_disconnect_stmts].
 Qed.
+
+(* EOF SEEN => READ_DISCONNECT SET IN THE SAME POLL, whatever read_buf holds (undecodable leftovers:
+   a truncated head, a stray CRLF), whatever is queued, running or being decoded.  EVERY poll of the
+   normal branch in which the socket has been closed by the peer (in this round or earlier) while
+   READ_DISCONNECT was not yet set, with fewer than MAX_BUFFER_SIZE bytes buffered + readable, ends
+   with READ_DISCONNECT set, whatever its result ([bad]: the model run is flagged -- a guard of the
+   event model was closed or a loop ran out of fuel). *)
+Theorem C04_eof_sets_read_disconnect : forall wbs r h431 fx f28 F (x : sim) (rd : round) x' p,
+  let c := std_cfg2 wbs r h431 fx f28 in
+  shut x = false -> rd_disc (m x) = false -> eof x || r_eof rd = true ->
+  rb (m x) + (sock x + r_add rd) < H1_MAX_BUFFER_SIZE ->
+  poll c F x rd = (x', p) -> rd_disc (m x') = true \/ bad x' = true.
+Proof.
+  intros wbs r h431 fx f28 F x rd x' p c Hs Hr He Hlt Hp.
+  exact (eof_poll_sets_read_disconnect c F x rd x' p Hs Hr He Hlt Hp).
+Qed.
+
+(* non-vacuity: the first handler waits, two requests are queued, then 27 bytes of a 400-byte head
+   arrive together with the FIN: the poll returns Pending with READ_DISCONNECT set, the queue intact
+   and the leftover in read_buf; once the handler answers, everything is answered and the future
+   completes *)
+Example C04_eof_with_queue_example :
+  let c := std_cfg2 32768 H1_LW_BUFFER_SIZE 123 true true in
+  let x := fst (polls c 20 (sim_init [IReq 18 None; IReq 18 None; IReq 18 None; IReq 400 None]
+                                      [[HWait; HRespond 56 None]; [HRespond 56 None]; [HRespond 56 None]])
+                      [mk_round 54 false [WAccept 1000] [] false]) in
+  let '(x', p) := poll c 20 x (mk_round 27 true [WAccept 1000] [] false) in
+  shut x = false /\ rd_disc (m x) = false /\ lenN (q (m x)) = 2 /\
+  p = PPend /\ rd_disc (m x') = true /\ bad x' = false /\ lenN (q (m x')) = 2 /\ rb (m x') = 27 /\
+  let '(x'', p') := poll c 20 x' (mk_round 0 false [WAccept 1000] [] true) in
+  p' = PDone /\ started x'' = 3 /\ accepted x'' = 168 /\ bad x'' = false.
+Proof. vm_compute. repeat split. Qed.
 
 (* non-vacuity: partial writes, a Pending in the middle, completion *)
 Example C04_example :
